@@ -139,6 +139,8 @@ def melody_case(draw):
     c["octaves"] = [draw(st.sampled_from([0, 0, 1, -1, 2])) for _ in c["est_freq"]]
     c["flip"] = [draw(st.booleans()) for _ in c["est_freq"]]
     c["mel_kw"] = R.subset(draw, R.MEL_KW) if draw(st.booleans()) else {}
+    if draw(st.integers(0, 3)) == 0:
+        c["mel_kw"]["base_frequency"] = 300.0      # a base INSIDE the pitch range: cents of lower pitches are negative
     return c
 
 
@@ -159,7 +161,13 @@ def _on_base(ctx, rt, rf, et, ef, pre):
     as 'no frequency' (KF-13).  Interpolation happens on cents and cannot create a 0 between two non-zero values, so looking at the
     inputs is enough."""
     base = pre.get("base_frequency", 10.0)
-    return bool(np.any(np.abs(rf) == base) or np.any(np.abs(ef) == base))
+    if np.any(np.abs(rf) == base) or np.any(np.abs(ef) == base):
+        return True
+    # with a base inside the pitch range an interpolated value can also land on exactly 0 cents (between -x and +x): converting once
+    # more with the base two octaves lower leaves only the real zeros at 0
+    _, rc, _, ec = ctx.call(melody.to_cent_voicing, rt, rf, et, ef, **pre)
+    _, rc2, _, ec2 = ctx.call(melody.to_cent_voicing, rt, rf, et, ef, **dict(pre, base_frequency=base / 4.0))
+    return bool(np.any((rc == 0) & (rc2 != 0)) or np.any((ec == 0) & (ec2 != 0)))
 
 
 KF13 = "c09.melody:frequency_equal_to_base_frequency_reads_as_no_frequency"
